@@ -1,2 +1,180 @@
+"""C19: the entry points modelled in Lean (Model/Purity.lean) — generators, line protocol, correspondence pairs."""
+import importlib.util
+import json
+import os
+
+HERE = os.path.dirname(os.path.abspath(__file__))
+VERIF = os.path.dirname(os.path.dirname(HERE))
+
+CFGS = [[8, 7, 0, 0, 0, 0], [9, 0x59, 0, 0, 0, 0], [16, 0x1021, 0, 0, 0, 0], [32, 0x04C11DB7, 0, 0, 0, 0], [7, 0x27, 0, 0, 0, 0],
+        [16, 0x1021, 0xFFFF, 0, 0, 0], [16, 0x8005, 0, 0, 1, 1], [32, 0x04C11DB7, 0xFFFFFFFF, 0xFFFFFFFF, 1, 1],
+        [12, 0x80F, 0, 0, 0, 0], [24, 0x864CFB, 0xB704CE, 0, 0, 0], [5, 0x15, 0, 0, 0, 0], [8, 0x07, 0, 0x55, 0, 1], [10, 0x233, 0, 0, 0, 0],
+        [3, 0x3, 0x7, 0x7, 0, 1], [15, 0x4599, 0, 0, 0, 0]]
+CODES = [(7, 4), (13, 9), (15, 11), (16, 11), (17, 12), (20, 8), (16, 7)]
+TOK_NAMES_REQ = ["request-id", "interval", "oneshot-trigger", "ret-info", "ret-info", "ret-info", "trg-condition", "no-such-token", 0x50, 0x51, 0x52, 0x53, 0x22]
+TOK_NAMES_ANS = ["request-id", "result", "result", "result", "info-time", "speed-hor", "no-such-token", 0x37, 0x38, 0x39, 0x22]
+ATTR_KEYS = ["result-code", "ret-info-accuracy", "ret-info-no-req-id", "ret-info-time", "no-such-attribute", 0x22, 0x23, 0x50, 0x51, 0x52, 0x54, 0x55, 0x99]
+ATTR_VALS = [None, 0, 0x49, 5, 7, 200]
+TMS = ["0003d00001", "00021f00", "00049f009520", "000de001019544610068006f006a00", "0002d000", "00039f0005", "0005e000056100", "0004d0020a0b", "00065f0201029f3f"]
+
+
+def add_model_entry_points(ep, h):
+    """h: helper namespace of c19.py (B, BL, X, XA, I, S, N, rbits, rhex, flip_hex)"""
+    B, BL, X, XA, I, S, rbits, rhex = h["B"], h["BL"], h["X"], h["XA"], h["I"], h["S"], h["rbits"], h["rhex"]
+
+    def data(r, cfg=None, le=True):
+        n = r.choice([0, 1, 7, 8, 9, 16, 24, 40, 72, 80, 96, 100])
+        if cfg and cfg[4]:
+            n = n // 8 * 8
+        s = rbits(r, n)
+        return BL(s) if (le and r.random() < 0.2) else B(s)
+
+    def cfg_args(r):
+        c = r.choice(CFGS)
+        return [["l", [I(x) for x in c]], I(r.randrange(2)), data(r, c)]
+
+    def ham(r, which):
+        i = r.randrange(7 if which != "cac" else 5) if r.random() < 0.95 else r.randrange(8)
+        n, k = CODES[i % 7]
+        ln = k if which == "gen" else n
+        if r.random() < 0.05:
+            ln = r.choice([0, ln - 1, ln + 1])
+        return [I(i), B(rbits(r, ln))]
+
+    def tok(r):
+        req = r.randrange(2)
+        name = r.choice(TOK_NAMES_REQ if req else TOK_NAMES_ANS)
+        keys = []
+        for _ in range(r.choice([0, 0, 1, 1, 1, 2, 2, 3])):
+            k = r.choice(ATTR_KEYS)
+            if k not in keys:
+                keys.append(k)
+        attrs = [["l", [S(k) if isinstance(k, str) else I(k), (["n"] if (v := r.choice(ATTR_VALS)) is None else I(v))]] for k in keys]
+        return [I(req), S(name) if isinstance(name, str) else I(name), ["l", attrs]]
+
+    ep("m.crc.shared", "model", ["crc"], lambda r: [I(r.randrange(4)), data(r)])
+    ep("m.crc.new", "model", ["crc"], cfg_args)
+    ep("m.crc.kept", "model", ["crc"], cfg_args)
+    ep("m.ham.gen", "model", ["matrices"], lambda r: ham(r, "gen"))
+    ep("m.ham.check", "model", ["matrices"], lambda r: ham(r, "check"))
+    ep("m.ham.cac", "model", ["matrices"], lambda r: ham(r, "cac"))
+    ep("m.fivebit", "model", [], lambda r: [X(rhex(r, r.choice([9, 9, 0, 3, 10])))])
+    ep("m.byteswap", "model", [], lambda r: [XA(rhex(r, r.choice([0, 1, 2, 3, 4, 9, 34])))])
+    for d in ("burst", "csbk", "dh", "so", "rcp"):
+        ep(f"m.default.{d}", "model", ["defaults"], lambda r: [])
+    ep("m.gettoken", "model", ["lrrp"], tok)
+    ep("m.tms", "model", [], lambda r: [X(h["flip_hex"](r, t) if r.random() < 0.2 else t) if (t := r.choice(TMS)) else X(""), I(r.randrange(2))])
+
+
+def _bits(e):
+    return (e[1] or "-"), ("1" if e[0] == "bl" else "0")
+
+
+def _key(e):
+    return ("s:" + e[1]) if e[0] == "s" else f"n:{e[1]}"
+
+
+def line_of(spec, py_result=None):
+    """the driver line of a modelled call (without the S./P. prefix); None if the call is outside the model's domain"""
+    name, a = spec["ep"], spec["a"]
+    if name == "m.crc.shared":
+        d, le = _bits(a[1])
+        return f"crc.shared {a[0][1]} {d} {le}"
+    if name in ("m.crc.new", "m.crc.kept"):
+        c = [x[1] for x in a[0][1]]
+        d, le = _bits(a[2])
+        return f"{name[2:]} {c[0]} {c[1]} {c[2]} {c[3]} {c[4]} {c[5]} {a[1][1]} {d} {le}"
+    if name in ("m.ham.gen", "m.ham.check", "m.ham.cac"):
+        return f"{name[2:]} {a[0][1]} {_bits(a[1])[0]}"
+    if name == "m.fivebit":
+        return f"fivebit {a[0][1] or '-'}"
+    if name == "m.byteswap":
+        return f"byteswap {a[0][1] or '-'}"
+    if name.startswith("m.default."):
+        return name[2:]
+    if name == "m.gettoken":
+        attrs = " ".join(f"{_key(p[1][0])}={'none' if p[1][1][0] == 'n' else p[1][1][1]}" for p in a[2][1])
+        return f"gettoken {a[0][1]} {_key(a[1])}" + (" " + attrs if attrs else "")
+    if name == "m.tms":
+        # the model takes the fields the Python object ended up with (header octet and the octets after it)
+        if not py_result or not py_result.startswith("x:"):
+            return None
+        parts = py_result.split(" ")
+        raw = bytes.fromhex(parts[0][2:]) if parts[0][2:] != "-" else b""
+        hdr = [p for p in parts if p.startswith("hdr:")]
+        if len(raw) < 3 or not hdr:
+            return None
+        flags, ty = hdr[0][4:].split(":")
+        more = raw[2] >> 7
+        return f"tms {more} {flags[0]} {flags[1]} {flags[2]} {ty} {raw[3:].hex() or '-'}"
+    return None
+
+
+def expected_of(spec, py_result):
+    """what the model must print for the Python result"""
+    if spec["ep"] == "m.tms" and py_result.startswith("x:"):
+        parts = py_result.split(" ")
+        # the second as_bytes of the kept object must equal the first (idempotent rewrite of the header flag)
+        if parts[0] != parts[1]:
+            return "PYTHON-AS_BYTES-NOT-IDEMPOTENT " + py_result
+        body = parts[0][2:][6:] or "-"
+        return f"{parts[0]} args:{body}"
+    return py_result
+
+
+def _unq(res0):
+    try:
+        v = json.loads(res0)
+        return v if isinstance(v, str) else None
+    except Exception:
+        return None
+
+
 def model_lines(ctx, pool, ref, histories, resp):
-    return {}
+    """correspondence pairs: component -> [(driver line, what the implementation answered)]"""
+    out = {}
+
+    def key_of(spec):
+        return json.dumps(spec, sort_keys=True)
+
+    # (1) history-free model == the call executed first in a fresh interpreter
+    pairs = []
+    for nm in sorted(pool):
+        if not nm.startswith("m."):
+            continue
+        for s in pool[nm]:
+            py = _unq(ref[key_of(s)][0])
+            if py is None:
+                continue
+            ln = line_of(s, py)
+            if ln is not None:
+                pairs.append(("P." + ln, expected_of(s, py)))
+    out["history-free-model"] = pairs
+    # (2) the state machine along the real histories: every modelled call of a history, in order, then the invariant
+    pairs = []
+    budget = ctx.budget(6000, 120000)
+    for (label, calls), rr in zip(histories, resp):
+        if len(pairs) > budget or "r" not in rr:
+            continue
+        ms = [(s, res) for s, res in zip(calls, rr["r"]) if s["ep"].startswith("m.")]
+        if not ms:
+            continue
+        pairs.append(("reset", "ok"))
+        for s, res in ms:
+            py = _unq(res[0])
+            if py is None:
+                continue
+            ln = line_of(s, py)
+            if ln is not None:
+                pairs.append(("S." + ln, expected_of(s, py)))
+        pairs.append(("inv", "1"))
+    out["state-machine-along-histories"] = pairs
+    # (3) the inventory compiled into the model == the inventory of the source as it is now
+    spec = importlib.util.spec_from_file_location("scan_state", os.path.join(VERIF, "tools", "scan_state.py"))
+    mod = importlib.util.module_from_spec(spec)
+    spec.loader.exec_module(mod)
+    rows = mod.scan()
+    pairs = [("inventory.count", str(len(rows)))] + [(f"inventory.item {i}", " | ".join(r)) for i, r in enumerate(rows)]
+    out["inventory"] = pairs
+    ctx.count("inventory:items", len(rows))
+    return out
